@@ -63,6 +63,63 @@ def hostile():
     return res
 
 
+def reference_matrix():
+    """Every place where a schema body may be written as a reference x every kind of thing the name may
+    stand for (also chains of references, alternatives, allOf targets): accepted or rejected, never a crash."""
+    targets = {
+        "object": "TYPE @x\n{\n  \"id\": 1\n}\n",
+        "regex": "TYPE @x regex\n/ab+/\n",
+        "any": "TYPE @x any\n",
+        "empty": "TYPE @x empty\n",
+        "scalar": "TYPE @x\n1\n",
+        "string": "TYPE @x\n\"s\"\n",
+        "array": "TYPE @x\n[1]\n",
+        "null": "TYPE @x\nnull\n",
+        "enumrule": "TYPE @x\n1 // {enum: @e}\nENUM @e\n[1, 2]\n",
+        "undefined": "",
+        "is_enum": "ENUM @x\n[1]\n",
+        "is_macro": "MACRO @x\n(\n  200 any\n)\n",
+        "chain_object": "TYPE @x\n@y\nTYPE @y\n{\n  \"id\": 1\n}\n",
+        "chain_regex": "TYPE @x\n@y\nTYPE @y regex\n/ab+/\n",
+        "chain_any": "TYPE @x\n@y\nTYPE @y any\n",
+        "chain_undefined": "TYPE @x\n@y\n",
+        "chain3": "TYPE @x\n@y\nTYPE @y\n@z\nTYPE @z\n{\n  \"id\": 1\n}\n",
+        "self": "TYPE @x\n@x\n",
+        "cycle": "TYPE @x\n@y\nTYPE @y\n@x\n",
+        "or": "TYPE @x\n@y | @z\nTYPE @y\n{\n  \"id\": 1\n}\nTYPE @z regex\n/a/\n",
+        "array_of_ref": "TYPE @x\n[@y]\nTYPE @y regex\n/a/\n",
+        "allof_regex": "TYPE @x\n{ // {allOf: \"@y\"}\n  \"id\": 1\n}\nTYPE @y regex\n/a/\n",
+        "allof_any": "TYPE @x\n{ // {allOf: \"@y\"}\n  \"id\": 1\n}\nTYPE @y any\n",
+        "allof_chain": "TYPE @x\n{ // {allOf: \"@y\"}\n  \"id\": 1\n}\nTYPE @y\n@z\nTYPE @z\n{\n  \"k\": 1\n}\n",
+    }
+    places = {
+        "path_body": "GET /a/{id}\n  Path\n    %s\n  200 any\n",
+        "url_path_body": "URL /a/{id}\n  Path\n    %s\n  GET\n    200 any\n",
+        "query_body": "GET /a\n  Query\n    %s\n  200 any\n",
+        "req_headers": "POST /a\n  Request any\n    Headers\n      %s\n  200 any\n",
+        "resp_headers": "GET /a\n  200 any\n    Headers\n      %s\n",
+        "req_param": "POST /a\n  Request %s\n  200 any\n",
+        "req_body": "POST /a\n  Request\n    %s\n  200 any\n",
+        "resp_param": "GET /a\n  200 %s\n",
+        "resp_body_child": "GET /a\n  200\n    Body\n      %s\n",
+        "resp_array_param": "GET /a\n  200 [%s]\n",
+        "rpc_params": "URL /r\n  Protocol json-rpc-2.0\n  Method m\n    Params\n      %s\n    Result\n      %s\n",
+        "prop": "GET /a\n  200\n    {\n      \"p\": %s\n    }\n",
+        "allof": "GET /a\n  200\n    { // {allOf: \"%s\"}\n      \"p\": 1\n    }\n",
+        "type_rule": "GET /a\n  200\n    {\n      \"p\": 1 // {type: \"%s\"}\n    }\n",
+        "or_rule": "GET /a\n  200\n    {\n      \"p\": 1 // {or: [\"%s\", \"integer\"]}\n    }\n",
+        "additional": "GET /a\n  200\n    { // {additionalProperties: \"%s\"}\n    }\n",
+        "enum_rule": "GET /a\n  200\n    {\n      \"p\": 1 // {enum: %s}\n    }\n",
+        "paste": "GET /a\n  PASTE %s\n",
+        "tags": "GET /a\n  Tags %s\n  200 any\n",
+    }
+    res = []
+    for pn, pt in places.items():
+        for tn, tt in targets.items():
+            res.append(("%s:%s" % (pn, tn), ("JSIGHT 0.3\n" + tt + pt.replace("%s", "@x")).encode()))
+    return res
+
+
 def main(tier):
     chk = Check("C01", tier)
     thorough = tier == "thorough"
@@ -142,6 +199,9 @@ def main(tier):
                 ff.update({k: b64(v) for k, v in fs.items()})
                 ff[rnd.choice(sorted(fs))] = b64("")        # one of the included files is empty
                 add("include_empty_file", "ie%d_%s" % (n, nm), ff)
+    # 4b. reference matrix
+    for nm, data in reference_matrix():
+        add("reference_matrix", "rm:" + nm, {"main.jst": b64(data)})
     # 5. hostile shapes
     for nm, data in hostile():
         add("hostile", "h:" + nm, {"main.jst": b64(data), "empty.jst": b64(b""), "bad.jst": b64(b"Bogus\n")})
